@@ -80,6 +80,7 @@ EXTRA_SRC = {
     "x_ldup": "[1, 1, 2]", "x_sdup": "'aab'", "x_setnested": "<<[1], [2]>>",      # duplicates; collections as members
     # the host's streams as values; a decimal at the edge of the range with a digit count left of the point
     "x_stdout": "stdout", "x_stdin": "stdin", "x_console": "console",
+    "x_hostout": "host_stdout", "x_hostin": "host_stdin",
     "x_dmax": "decimal('17' + '0' * 307)", "x_ineg308": "-308",
     "x_ihuge": "1" + "0" * 400,          # an int beyond the range of a decimal
 }
@@ -189,6 +190,10 @@ class World:
             it.setStandardOutput(V.StringOutput())
             it.setStandardInput(V.StringInput(""))
             it.base_environment.put("console", sink)
+            # what `stdout` / `stdin` are in an interpreter nobody redirected (Interpreter.__init__): the
+            # host's own text streams (here the worker's: the null device), not the string streams above
+            it.base_environment.put("host_stdout", V.ValueOutput(sys.stdout))
+            it.base_environment.put("host_stdin", V.ValueInput(sys.stdin))
             self.interps[key] = it
         self._collect()
 
@@ -849,6 +854,10 @@ def function_jobs(run, sites, rng, quick, shapes):
                     return ["date", "dneg"]
                 if a in LATE_SRC:          # something to call them on more than once
                     return ["l2", "x_l123", "set1", "map1"]
+                if a == "x_dmax":          # a digit count left of the point
+                    return ["x_ineg308", "x_ineg5"]
+                if a in ("x_stdin", "x_hostin", "x_stdout", "x_hostout"):       # something to hand the lines to
+                    return ["lambda", "x_fn0"]
                 return ["l2", "set1", "map1"] if a in GRAPH_SRC else []
             for a in EXTRA_TAGS:
                 # (the 5000-digit int differs from 10^400 in its rendering only: three partners)
